@@ -19,7 +19,59 @@ ASSUMPTIONS = [
 ]
 
 
+BIG_NO = 5      # the case number that carries the size case
+
+
+def big_case(rng):
+    """One host thread, three top-level instances of one operator: two launch three kernels each, one launches more than
+    2^15 (sometimes more than 2^16) kernels. Counts, positions and ids beyond the narrow integer types the call graph
+    uses for its stack columns. The model driver is quadratic in the number of rows, so this case is decided by the
+    independent oracle alone (a test, not a theorem: see DESIGN 0.6, C16-agent8); top_k=1 keeps the overlay small."""
+    n = rng.choice([32800, 33000, 40000, 66000])
+    op = rng.choice(["model::forward", "Optimizer.step#SGD.step"])
+    hp, ht, gp, st = 4242, 4243, 0, rng.choice([7, 20])
+    ev: List[Dict[str, Any]] = []
+    corr = rng.choice([0, 1000])
+
+    def host(name, ts, dur, cat="cpu_op", args=None):
+        e = {"ph": "X", "cat": cat, "name": name, "pid": hp, "tid": ht, "ts": ts, "dur": dur}
+        if args:
+            e["args"] = args
+        ev.append(e)
+
+    def launch(ts, kname, kts, kdur):
+        nonlocal corr
+        corr += 1
+        host("cudaLaunchKernel", ts, 2, "cuda_runtime", {"correlation": corr})
+        ev.append({"ph": "X", "cat": "kernel", "name": kname, "pid": gp, "tid": st, "ts": kts, "dur": kdur,
+                   "args": {"stream": st, "correlation": corr}})
+
+    t = 1000
+    where = rng.choice([0, 1, 2])          # the long instance first, in the middle or last
+    for inst in range(3):
+        if inst == where:
+            host(op, t, 4 * n + 20, "user_annotation" if op.startswith("Profiler") else "cpu_op")
+            for i in range(n):
+                launch(t + 5 + 4 * i, "elementwise_k", t + 9 + 4 * i, 3)
+            t += 4 * n + 100
+        else:
+            host(op, t, 100, "user_annotation" if op.startswith("Profiler") else "cpu_op")
+            host("aten::mm", t + 5, 60)
+            for j, k in enumerate(["gemm_a", "gemm_b", "reduce_c"]):
+                launch(t + 10 + 10 * j, k, t + 40 + 12 * j, 7)
+            t += 200
+    case = G.gen_case(rng)
+    case["ranks"] = {0: ev}
+    case["big"] = n
+    case["pre"] = []
+    case["ctor"] = None
+    case["params"] = {"operator": op, "min_pattern_len": rng.choice([1, 3]), "rank": 0, "top_k": 1, "include_last": True}
+    return case
+
+
 def gen(rng, tier, no, wide=False):
+    if no == BIG_NO and not wide:
+        return big_case(rng)
     case = C.gen_with(rng, C.every_rank_has_device, launch_rate=rng.choice([0.45, 0.6]), nsteps=rng.choice([0, 1, 2]),
                       max_depth=rng.choice([2, 3, 4]), top_ops=rng.choice([2, 3, 4]),
                       **({"nranks": rng.choice([2, 3]), "filler": -90} if rng.random() < 0.1 else {}))
@@ -70,6 +122,8 @@ def observe(case):
 
 def model(drv, case, obs):
     p = case["params"]
+    if case.get("big") and len(obs["rows"]) > 20000:
+        return {"skipped": "size case: decided by the independent oracle only"}
     return drv.call({"op": "c16", "rows": obs["rows"], "operator": p["operator"], "min_pattern_len": p["min_pattern_len"]})
 
 
@@ -100,6 +154,8 @@ def compare(obs, mod) -> List[str]:
     c = obs["canon"]
     if isinstance(c, dict):
         return [f"impl raises {c['raises']}"]
+    if "skipped" in mod:
+        return []
     if "table" not in mod:
         return [f"model {mod}"]
     ties = _has_ties(obs["rows"])
@@ -175,6 +231,7 @@ def features(case, obs):
         f["repeated_pattern"] = int(any(x[1] > 1 for x in c))
         f["kernels_in_pattern"] = int(any("|" in x[0] for x in c))
         f["ties"] = int(_has_ties(obs["rows"]))
+        f["size_case_over_int16_kernels"] = int(bool(case.get("big")))
     return f
 
 
